@@ -72,6 +72,70 @@ func c04Schema() (*model.Schema, []*model.TypeRef) {
 	return s, types
 }
 
+// c04NearMiss lists, for an input type, values that are almost values of its base type (the empty string, padded text, the
+// first number beyond a range, a date without a time, ...) placed at the position the wrappers of the type give the base type,
+// alone and next to a valid neighbour in a list.
+func c04NearMiss(t *model.TypeRef) []interface{} {
+	affine := map[string][]interface{}{
+		"Int":     {"", "7", int64(2147483648), int64(-2147483649), 1.0000001, true},
+		"Float":   {"", "1.5", true, 1e39, -1e39},
+		"Float64": {"", "1.5", true},
+		"Int64":   {"", "7", 1.5, true},
+		"String":  {int64(0), true, model.Sym("A")},
+		"Boolean": {"", "true", int64(0), int64(1), model.Sym("TRUE")},
+		"ID":      {true, 1.5},
+		"E":       {"", " A", "A ", model.Sym("a"), model.Sym("AA"), int64(0), true},
+		"Time":    {"", " ", "2006-01-02", "2006-01-02T15:04:05", "2006-01-02 15:04:05Z", "0", int64(0), true, model.Sym("now")},
+	}
+	base := affine[t.Base()]
+	var good interface{}
+	switch t.Base() {
+	case "Int", "Int64":
+		good = int64(1)
+	case "Float", "Float64":
+		good = 2.5
+	case "String", "ID":
+		good = "s"
+	case "Boolean":
+		good = true
+	case "E":
+		good = model.Sym("A")
+	case "Time":
+		good = "2006-01-02T15:04:05Z"
+	}
+	var out []interface{}
+	for _, v := range base {
+		var place func(t *model.TypeRef, withNeighbour bool) interface{}
+		place = func(t *model.TypeRef, withNeighbour bool) interface{} {
+			switch {
+			case t.NonNull:
+				return place(t.Of, withNeighbour)
+			case t.List:
+				if withNeighbour {
+					return []interface{}{place(t.Of, false), c04PlaceGood(t.Of, good)}
+				}
+				return []interface{}{place(t.Of, false)}
+			}
+			return v
+		}
+		out = append(out, place(t, false))
+		if t.List || (t.NonNull && t.Of.List) {
+			out = append(out, place(t, true))
+		}
+	}
+	return out
+}
+
+func c04PlaceGood(t *model.TypeRef, good interface{}) interface{} {
+	switch {
+	case t.NonNull:
+		return c04PlaceGood(t.Of, good)
+	case t.List:
+		return []interface{}{c04PlaceGood(t.Of, good)}
+	}
+	return good
+}
+
 // c04DefaultFor gives a valid default literal for the non-null probe types (nil: none).
 func c04DefaultFor(t *model.TypeRef) interface{} {
 	in := t.Of
@@ -392,9 +456,14 @@ func runC04(c *run.Ctx) {
 			fname := fmt.Sprintf("p%d", ti)
 			fd := s.Type("Query").Field(fname)
 			r := c.Rand(ti*7 + len(bk))
-			for vi := 0; vi < perType; vi++ {
+			near := c04NearMiss(t)
+			for vi := 0; vi < perType+len(near); vi++ {
 				var raw interface{}
-				if vi < perType/3 {
+				if vi >= perType {
+					// the near misses of this very type are tried in every run, whatever the draw
+					raw = near[vi-perType]
+					c.Count("near_miss_values_of_the_type", 1)
+				} else if vi < perType/3 {
 					raw = gen.InputLiteral(r, s, t, 3) // a valid value
 					if rl, isRaw := raw.(model.RawLit); isRaw {
 						raw = rl.Value
@@ -609,6 +678,7 @@ func runC04(c *run.Ctx) {
 	hist += c04Unsigned(c)
 	hist += c04OneVarsMap(c)
 	hist += c04Registered(c)
+	hist += c04MethodParams(c)
 	// under reflection the "resolver" is a Go method: each parameter must receive the value the client wrote for ITS argument
 	// (order given by RegisterField, also when registered after a first request) - judged against the direct Go call
 	c02Methods(c)
